@@ -1,4 +1,4 @@
-import PV.Lemmas.IPCKey
+import PV.Lemmas.IPCSemKey
 /-!
 # C07 — shared memory (`pshm-posix.c` over the POSIX name space model `PV.IPC.OS`)
 
@@ -567,6 +567,63 @@ theorem lock_is_mutex (k : ShmKey) (o : ObjId) (g : G) (as : List Action)
         exact ⟨Nat.le_trans h1.1 h2.1, Nat.le_trans h1.2 h2.2⟩
     have m := mono as g
     omega
+
+/-! ### the lock as used by C08: lock-bracketed critical sections exclude each other -/
+
+/-- **For C08.**  For EVERY schedule from a state in which all lock handles of name `k` agree on one
+    object `o` of value 1 (what a sequential creation establishes: `creation_establishes_lock`) and in
+    which no creator's CREATE-mode open / no owner's free of the lock is under way (`QuietRun (.lock k)`):
+    reading the new part `evs` of the event log, if every `p_shm_unlock` is by a current holder
+    (`Bracketed`: lock-bracketed critical sections, as every `pshmbuffer.c` operation is), then at most
+    ONE thread — of any process — is between a successful `p_shm_lock` and its `p_shm_unlock`
+    (`holders o evs` has length ≤ 1), and every live handle of `k` locks / unlocks exactly `o`. -/
+theorem at_most_one_in_critical_section (k : ShmKey) (o : ObjId) (g : G) (as : List Action)
+    (hA : Agree (.lock k) o g) (hv : (g.os.sems o).value = 1) (ho : o < g.os.nextObj) (hq : QuietRun (.lock k) g as) :
+    ∃ evs, (execAll g as).log = evs ++ g.log ∧
+      (Bracketed o evs → (holders o evs).length ≤ 1 ∧ ∀ t1 t2, t1 ∈ holders o evs → t2 ∈ holders o evs → t1 = t2) ∧
+      (∀ h p y, (execAll g as).hs h = some (p, .shm y) → y.sem.key = .lock k →
+        acquireNext y.sem = .semWait o ∧ releaseNext y.sem = .semPost o) := by
+  obtain ⟨evs, hevs⟩ := execAll_log_suffix as g
+  have hA' := agree_execAll (.lock k) o as g hA hq
+  refine ⟨evs, hevs, ?_, ?_⟩
+  · intro hb
+    have hc := (counter_execAll o as g ho).1
+    rw [hevs, acquired_append, released_append, hv] at hc
+    have hcount := holders_count o evs hb
+    have hlen : (holders o evs).length ≤ 1 := by omega
+    refine ⟨hlen, ?_⟩
+    intro t1 t2 h1 h2
+    match hh : holders o evs, hlen, h1, h2 with
+    | [], _, h1, _ => cases h1
+    | [x], _, h1, h2 =>
+      simp only [List.mem_singleton] at h1 h2
+      rw [h1, h2]
+    | _ :: _ :: _, hl, _, _ => simp at hl
+  · intro h p y hy hky
+    have := hA'.2.2 h p y hy hky
+    simp [acquireNext, releaseNext, this]
+
+/-- … from a first creation on: the hypotheses above hold right after a sequential `p_shm_new` that
+    created `k` while no lock handle of `k` was live -/
+theorem critical_sections_after_creation (g : G) (t : Tid) (h : Hid) (k : ShmKey) (size : Nat) (ro : Bool) (as : List Action)
+    (hi : Idle g t) (hh : g.hs h = none) (hk : g.os.shmNames k = none) (hs : size ≠ 0)
+    (hnone : ∀ h' p x, g.hs h' = some (p, x) → ¬ (match x with | .sem z => z.key = .lock k | .shm z => z.sem.key = .lock k))
+    (hq : QuietRun (.lock k) (g.call t (.newShm h k size ro)) as) :
+    ∃ evs, (execAll (g.call t (.newShm h k size ro)) as).log = evs ++ (g.call t (.newShm h k size ro)).log ∧
+      (Bracketed g.os.nextObj evs → (holders g.os.nextObj evs).length ≤ 1) := by
+  obtain ⟨hA, hv, ho⟩ := creation_establishes_lock g t h k size ro hi hh hk hs hnone
+  obtain ⟨evs, h1, h2, _⟩ := at_most_one_in_critical_section k g.os.nextObj _ as hA hv ho hq
+  exact ⟨evs, h1, fun hb => (h2 hb).1⟩
+
+/-- PShm structs and shm calls only ever address the lock key of their own name — in every reachable
+    state; so they are `quiet` for every user semaphore key, and `QuietRun (.user n)` (C06) is a
+    condition on the `p_semaphore_new` / `p_semaphore_free` calls alone -/
+theorem shm_calls_never_touch_user_keys (pidOf : Tid → Pid) (as : List Action) (n : Nat) :
+    SemKeyWF (execAll (G.init pidOf) as) ∧
+    ((∀ t c, (execAll (G.init pidOf) as).calls t = some c →
+        (∀ hid s, c = .semNew hid s → ¬ s.mayUnlink (.user n)) ∧ (∀ s, c = .semFree s → ¬ s.mayUnlink (.user n))) →
+      Quiet (.user n) (execAll (G.init pidOf) as)) :=
+  ⟨semKeyWF_execAll as _ (semKeyWF_init pidOf), quiet_user _ (semKeyWF_execAll as _ (semKeyWF_init pidOf)) n⟩
 
 /-! ## concurrent first-time creation (F11) -/
 
